@@ -118,4 +118,20 @@ PROPS = {
             native("sched-debug", "c01", "debug", args={"family": "c06", "scale-pct": dict(quick=40, thorough=10)}),
         ],
     ),
+
+    "C19": dict(
+        level="exploration",
+        engine="wiregen",
+        technique="runtime differential monitoring of generated programs: hundreds of generated #[derive(EtherCrabWire*)] definitions are compiled against /repo's derive and, for random values and buffers, pack/unpack/round-trip/short-buffer behaviour is compared with an independent bit-level reference packer driven by the same layout description (catch_unwind around every call)",
+        level_text=("Each run generates 800+ (quick) / 4800 (thorough) struct and enum definitions obeying the macro's rules (1..12 fields, 1..64-bit widths, pre/post skips in bits and bytes, u8..u64/i8..i64/bool/enum/nested struct/array fields, enums with explicit and implicit discriminants, negative values, alternatives, catch-all, default), builds them against the derive in /repo, and checks >= 1200 random values/buffers per definition against a reference written from the layout only; plus the in-crate wire types reachable through public API. "
+                    "Held = no mismatch, no panic, correct errors for short buffers/undefined enum values, on everything generated."),
+        level_note="Definitions the macro rejects at compile time are bisected out and reported as inconclusive, never as violations. The reference packer (wiregen/template/reference.rs) is the trusted base. Two constructs the macro accepts but does not implement (signed sub-byte fields, integers declared narrower than their type) are known findings.",
+        rule="case = (type definition, value or buffer); non-trivial = definition with >= 2 fields or a sub-byte field; distinct by hash of the definition text",
+        assumptions=["generated definitions obey the derive macro's documented rules"],
+        min_distinct=dict(quick=300, thorough=2000),
+        required_counters=[],
+        runs=[
+            dict(name="wiregen", bin="wiregen/run.py", build="script", timeout=dict(quick=1500, thorough=3600)),
+        ],
+    ),
 }
